@@ -11,7 +11,7 @@ from pbt.samples import call, raised, native
 
 ID = 'C01'
 LEVEL = 'exploration'
-RULE = ('Hypothesis draws an event matrix (0..40 events x 1..6 parameters; cells from {0, 2^w-1, 2^(w-1), '
+RULE = ('Hypothesis draws an event matrix (0..40 events x 1..6, sometimes 7..12, parameters; cells from {0, 2^w-1, 2^(w-1), '
         'alternating-bit patterns, range-1, range, uniform} for integers, IEEE bit patterns incl. +-0, subnormals, '
         '+-inf, extremes for floats) and a layout: version {2.0,3.0,3.1} x datatype {I,F,D} x byte order (both '
         'spellings) x per-parameter widths from {8..64} (all-equal boosted) x range {2^w, smaller power of two, '
@@ -56,7 +56,7 @@ def _not_nan64(b):
 def _layout(draw):
     version = draw(st.sampled_from(['FCS2.0', 'FCS3.0', 'FCS3.1']))
     dt = draw(st.sampled_from(['I', 'I', 'I', 'F', 'D']))
-    D = draw(st.integers(1, 6))
+    D = draw(st.one_of(st.integers(1, 6), st.integers(1, 6), st.integers(1, 6), st.integers(7, 12)))
     N = draw(st.one_of(st.integers(2, 40), st.integers(2, 40), st.integers(0, 40)))
     little = draw(st.booleans())
     byteord = draw(st.sampled_from(['1,2,3,4', '1,2'] if little else ['4,3,2,1', '2,1']))
